@@ -46,7 +46,7 @@ StdNames == IF Rich THEN {"InterfaceNotFound", "MethodNotFound", "MethodNotImple
             ELSE {"MethodNotImplemented"}
 
 St(k, name, std) == [k |-> k, name |-> name, std |-> std, tok |-> 0]
-Steps == {St("cont", <<>>, ""), St("final", <<>>, ""), St("same", <<>>, "")}
+Steps == {St("cont", <<>>, ""), St("final", <<>>, ""), St("same", <<>>, ""), St("unenc", <<>>, "")}
            \cup {St("err", n, "") : n \in ErrNames}
            \cup {St("std", <<>>, s) : s \in StdNames}
 
@@ -160,7 +160,11 @@ MethodStrings ==
    \cup UNION {{n \o <<".", "M">>, n \o <<".">> \o GETINFO, n \o <<".">> \o GETDESC} : n \in UNION {Near(r) : r \in RegPool \cup {OVS}}}
    \cup {OVS \o <<".">> \o m : m \in Near(GETINFO)}
 ProbeFinal == Fr("call", <<"a",".","M">>, NoFl, "absent", <<St("final", <<>>, "")>>, "nil", 1)
+UpFl == [more |-> FALSE, oneway |-> FALSE, upgrade |-> TRUE]
 F4 == {Sc(<<Fr("call", m, NoFl, "known", <<St("final", <<>>, "")>>, "nil", 1), RInfo>>, <<2, 2>>, "halfclose") : m \in MethodStrings}
+      \* the flags of a call do not change where it goes, nor what follows on the connection
+      \cup {Sc(<<Fr("call", m, fl, "known", <<St("final", <<>>, "")>>, "nil", 1), RInfo>>, <<2, 2>>, "halfclose") :
+               m \in Strs({".", "a", "b"}, 3) \cup {OVS \o <<".", "x">>, OVS \o <<".">> \o GETINFO, <<"a", ".", "b", ".", "M">>}, fl \in {UpFl, MoreFl}}
 TRegA == {<<"a",".","b">>, <<"a",".","b",".","c">>}
 TRegB == {<<"a">>, <<"a",".","b",".","c",".","d">>, <<"a",".","U1">>}
 TRegC == {}
@@ -187,6 +191,11 @@ Probe == Sc(<<RInfo, RFinal, RInfo>>, <<2, 2, 2>>, "halfclose")
 
 All == F1 \cup F2 \cup F3
 
+(* F8: a subscriber that vanishes while its handler streams: one more-call, replies before and after a pause during  *)
+(* which the client (having written its call) is gone; the handler must be told that its replies fail                  *)
+RStream(r) == Fr("call", TgtA, MoreFl, "absent", <<St("cont", <<>>, ""), St("pause", <<>>, ""), St("cont", <<>>, ""), St("cont", <<>>, ""), St("cont", <<>>, ""), St("final", <<>>, "")>>, r, 1)
+F8 == {Sc(<<RStream(r)>>, <<2>>, e) : r \in {"nil", "err"}, e \in {"abort", "halfclose"}}
+      \cup {Sc(<<RStream("nil"), RInfo>>, <<2, 2>>, "halfclose")}
 (* a connection whose handler waits until the other connections are done: their service must not depend on it *)
 RWait == Fr("call", TgtA, NoFl, "absent", <<St("wait", <<>>, ""), St("final", <<>>, "")>>, "nil", 1)
 WaitScen == Sc(<<RWait, RInfo>>, <<2, 2>>, "halfclose")
